@@ -272,22 +272,24 @@ func TestC06(t *testing.T) {
 		"files lists of 1..3 entries, lengths{-pl,-1,0,1,pl,2^62,2^63-1,pl+1,pl+2}, every padding mask), plus one-dimensional deviations from accepted bases (path shapes, wrong types, " +
 		"duplicate keys, every key permutation, name variants, extra keys, malformed keys, truncations at every byte), list and dict nesting of depth {1,10,10^3,10^5" + map[bool]string{true: ",10^6", false: ""}[thorough] + "} at 11 positions " +
 		"(terminated and not), strings declaring {exact,+1,2^31-1,2^24,2^31,-1,...} bytes with a short body at 9 positions; every case through metainfo.New, Session.parseMetaInfo, " +
-		"metainfo.NewInfo x 4 flag pairs, Session.parseInfo v1..v3, a real Session's resume loader (v1..v3) and AddTorrent(Stopped) under tight limits; every accepted info through " +
-		"allocator+piece.NewPieces+CalculateBlocks in an rlimited subprocess. Non-trivial = got past bencode syntax in at least one entry point (accepted or a semantic error); distinct = such inputs."
+		"metainfo.NewInfo x 4 flag pairs, Session.parseInfo v1..v3, a real Session's resume loader (v1..v3) and AddTorrent(Stopped) under tight limits; every distinct accepted geometry " +
+		"(PieceLength, NumPieces, Length, file lengths and padding flags) through allocator+piece.NewPieces+CalculateBlocks in an rlimited subprocess. Non-trivial = got past bencode syntax in at least one entry point (accepted or a semantic error); distinct = such inputs."
 	rep.Assumptions = []string{
 		"construct-pieces uses the real allocator over a storage that accepts every non-negative file size and refuses negative ones with EINVAL (as os.File.Truncate does)",
 		"allocated bytes = runtime.MemStats.TotalAlloc delta around the parser call in a GOMAXPROCS=1 worker; stack memory is not counted, only process death by stack overflow is",
-		"worker address space is limited to (size at start + 4 GiB) for parsing and (size at start + 256 MiB) for construct-pieces; a worker killed by the limit or by the wall budget is reported for the job it had announced",
+		"worker address space is limited to (size at start + 4 GiB) for parsing and (size at start + 256 MiB) for construct-pieces, where in addition a watchdog thread ends the worker once the construction of a small info has allocated more than 8 MiB + 4 KiB per piece; a worker killed by the limit or by the wall budget is reported for the job it had announced",
 		"the session limits are exercised with MaxPieces=1 and MaxTorrentSize=220 so that lattice members fall on both sides of each limit",
 		"work bound = 256*len(input) + 1 MiB heap bytes per parser call (DESIGN proposes slope 64; the decoder's legitimate linear cost on dense nesting is ~136 B per input byte, so 64 would flag linear work)",
 		"byte values and lengths outside the lattice are not enumerated",
 	}
 	fs := &findings{m: map[string]*found{}}
-	shm, err := os.MkdirTemp("/dev/shm", "c06-")
+	removeStale("/dev/shm", "c06-")
+	removeStale(os.Getenv("VERIF_TMP"), "c06data-")
+	shm, err := os.MkdirTemp("/dev/shm", fmt.Sprintf("c06-%d-", os.Getpid()))
 	if err != nil {
 		core.HarnessError("mkdtemp /dev/shm: %v", err)
 	}
-	dataBase, err := os.MkdirTemp(os.Getenv("VERIF_TMP"), "c06data")
+	dataBase, err := os.MkdirTemp(os.Getenv("VERIF_TMP"), fmt.Sprintf("c06data-%d-", os.Getpid()))
 	if err != nil {
 		os.RemoveAll(shm)
 		core.HarnessError("mkdtemp: %v", err)
@@ -491,8 +493,16 @@ func TestC06(t *testing.T) {
 		}
 		return strings.Contains(w, "utf8=1"), strings.Contains(w, "pad=1")
 	}
-	accepted := map[accKey]bool{} // (case, pad flag) accepted by some entry point
-	var acceptedOrder []accKey
+	accepted := map[accKey]bool{} // (case, flags) accepted by some entry point
+	// piece construction is a function of (PieceLength, NumPieces, Length, file lengths and padding flags) only:
+	// one construct job per distinct geometry, run on the shortest input that produced it
+	type geom struct {
+		k     accKey
+		size  int
+		cases int64
+	}
+	geoms := map[string]*geom{}
+	var geomOrder []string
 	acceptedBy := map[string]int64{}
 	newAccepted := map[int]*infoSum{} // case -> info accepted by metainfo.New
 	parseHist := map[string]int64{}
@@ -553,7 +563,16 @@ func TestC06(t *testing.T) {
 						k := accKey{c.Case, u8, pad}
 						if !accepted[k] {
 							accepted[k] = true
-							acceptedOrder = append(acceptedOrder, k)
+							gk := fmt.Sprintf("pl=%d np=%d len=%d files=%v", c.Acc.PL, c.Acc.NP, c.Acc.Len, c.Acc.Files)
+							g := geoms[gk]
+							if g == nil {
+								g = &geom{k: k, size: c.Acc.InfoLen}
+								geoms[gk] = g
+								geomOrder = append(geomOrder, gk)
+							} else if c.Acc.InfoLen < g.size {
+								g.k, g.size = k, c.Acc.InfoLen
+							}
+							g.cases++
 						}
 					}
 					if c.W == "New" {
@@ -600,9 +619,13 @@ func TestC06(t *testing.T) {
 	// ---------------- construct pieces for every accepted (case, pad flag)
 	{
 		var jobs []job
-		for _, k := range acceptedOrder {
-			jobs = append(jobs, job{Kind: "construct", Cases: []caseSpec{cases[k.c]}, IDs: []int{k.c}, UTF8: k.utf8, Pad: k.pad})
+		var covered []int64
+		for _, gk := range geomOrder {
+			g := geoms[gk]
+			jobs = append(jobs, job{Kind: "construct", Cases: []caseSpec{cases[g.k.c]}, IDs: []int{g.k.c}, UTF8: g.k.utf8, Pad: g.k.pad})
+			covered = append(covered, g.cases)
 		}
+		rep.Extra["construct_accepted_case_flag_pairs_covered"] = int64(len(accepted))
 		results := run(jobs, 2*time.Second, 256)
 		// a job over the wall budget is re-run alone with a long budget before anything is concluded from it
 		var hungIdx []int
@@ -653,6 +676,9 @@ func TestC06(t *testing.T) {
 				fail("construct: case accepted in the parse phase is rejected now: %s: %s", cs.Desc, cr.Detail)
 			case "skipped-large":
 				rep.Cap(fmt.Sprintf("construct-pieces skipped for NumPieces=%d > %d: %s", cr.NP, maxConstructPieces, cs.Desc))
+			case "runaway":
+				fs.add("C06.construct.nontermination", fmt.Sprintf("%s does not terminate (%s; NumPieces=%d, %d files: a terminating construction needs a few KiB): %s; input %s",
+					what, cr.Detail, cr.NP, cr.NFiles, cs.Desc, showInput(in)), len(in), cs.replay(fmt.Sprintf("construct pad=%v", j.Pad)))
 			case "panic":
 				fs.add("C06.construct.panic."+cr.Frame, fmt.Sprintf("%s panics (%s): %s; input %s", what, cr.Detail, cs.Desc, showInput(in)), len(in), cs.replay("construct"))
 			case "ok":
@@ -665,7 +691,8 @@ func TestC06(t *testing.T) {
 			}
 		}
 		rep.Eval(int64(len(jobs)))
-		rep.Extra["construct_jobs"] = int64(len(jobs))
+		rep.Extra["construct_jobs_distinct_geometries"] = int64(len(jobs))
+		_ = covered
 		rep.Extra["construct_outcomes"] = outcomes
 		if outcomes["ok"] == 0 {
 			fail("vacuous: construct-pieces never completed")
@@ -819,6 +846,27 @@ func TestC06(t *testing.T) {
 	fs.flush(rep)
 	cleanup()
 	rep.Finish()
+}
+
+// removeStale deletes scratch directories "<prefix><pid>-*" left by a run whose process is gone (Finish and
+// HarnessError exit without running deferred calls; a harness error inside core cannot be intercepted).
+func removeStale(dir, prefix string) {
+	ents, err := os.ReadDir(dir)
+	if err != nil {
+		return
+	}
+	for _, e := range ents {
+		if !strings.HasPrefix(e.Name(), prefix) {
+			continue
+		}
+		var pid int
+		if _, err := fmt.Sscanf(strings.TrimPrefix(e.Name(), prefix), "%d-", &pid); err != nil || pid <= 0 {
+			continue
+		}
+		if _, err := os.Stat(fmt.Sprintf("/proc/%d", pid)); os.IsNotExist(err) {
+			os.RemoveAll(dir + "/" + e.Name())
+		}
+	}
 }
 
 func topHist(h map[string]int64, n int) []string {
